@@ -2254,11 +2254,79 @@ class _Identity:
                 r = False if False in vs else (None if None in vs else True)
             else:
                 r = True if True in vs else (None if None in vs else False)
+        elif isinstance(e, ast.Call) and isinstance(e.func, ast.Name) and \
+                e.func.id in ('any', 'all') and len(e.args) == 1 and \
+                not e.keywords:
+            # any(<test on x> for x in <constants>): the disjunction (all():
+            # the conjunction) of the test with x bound to each constant
+            vs = self._quantified(e.args[0], node, depth)
+            if vs is not None and e.func.id == 'all':
+                r = False if False in vs else (None if None in vs else True)
+            elif vs is not None:
+                r = True if True in vs else (None if None in vs else False)
         elif isinstance(e, ast.Name) and depth > 0:
             rd = reaching_defs(self.g, e.id, node.id)
             if len(rd) == 1 and rd[0][1] is not None:
                 r = self.test(rd[0][1], rd[0][0], depth - 1)
         return None if r is None else (r == pol)
+
+    def _strings(self, e, node, depth):
+        """the string constants a collection expression holds (literal, local
+        name bound once to one, module / class constant); None if not known"""
+        while isinstance(e, ast.Call) and isinstance(e.func, ast.Name) and \
+                e.func.id in ('list', 'tuple', 'set', 'frozenset', 'sorted') \
+                and len(e.args) == 1 and not e.keywords:
+            e = e.args[0]
+        if isinstance(e, (ast.Tuple, ast.List, ast.Set)):
+            vs = [self.value(x, node, depth) for x in e.elts]
+            return None if None in vs else vs
+        if isinstance(e, ast.Name) and depth > 0:
+            rd = reaching_defs(self.g, e.id, node.id)
+            if len(rd) == 1 and rd[0][1] is not None:
+                return self._strings(rd[0][1], rd[0][0], depth - 1)
+            if rd:
+                return None
+        if isinstance(e, (ast.Name, ast.Attribute)):
+            v = self.prog.fold(self.f.module, e, self.f.cls)
+            if isinstance(v, (list, tuple, set, frozenset)) and v and \
+                    all(isinstance(x, str) for x in v):
+                return list(v)
+        return None
+
+    def _quantified(self, c, node, depth):
+        """[True / False / None] of the element test of a comprehension /
+        generator over string constants, one entry per constant; None if the
+        shape is not known"""
+        if not isinstance(c, (ast.GeneratorExp, ast.ListComp, ast.SetComp)) \
+                or len(c.generators) != 1:
+            return None
+        gen = c.generators[0]
+        if gen.is_async or not isinstance(gen.target, ast.Name):
+            return None
+        consts = self._strings(gen.iter, node, depth)
+        if consts is None:
+            return None
+        var = gen.target.id
+
+        class Bind(ast.NodeTransformer):
+            def __init__(self, s):
+                self.s = s
+
+            def visit_Name(self, n):
+                if n.id == var and isinstance(n.ctx, ast.Load):
+                    return ast.copy_location(ast.Constant(self.s), n)
+                return n
+
+        out = []
+        for s in consts:
+            def bound(x):
+                return Bind(s).visit(copy.deepcopy(x))
+            conds = [self.test(bound(i), node, depth) for i in gen.ifs]
+            if False in conds:
+                continue                # filtered out: no contribution
+            v = self.test(bound(c.elt), node, depth)
+            out.append(None if None in conds else v)
+        return out
 
     def about_identity(self, e, node, depth=3):
         if _mentions_identity(e):
@@ -2589,6 +2657,396 @@ def r08_14(prog, rep, rid='R08.14'):
 
 
 # ------------------------------------------------------------------------------
+# R08.16  the whole raptor backlog is searched for the named tasks
+#
+_BACKLOG = 'self._raptor_tasks'
+_VIEWS = ('list', 'tuple', 'sorted', 'set', 'frozenset', 'dict', 'iter',
+          'reversed')
+_BUILTINS = set(dir(__import__('builtins')))
+
+
+def _strip_view(e):
+    """E for list(E), sorted(E), E.keys(), E.items(), E.values(), E.copy(),
+    E[:]: the same entries"""
+    while True:
+        if isinstance(e, ast.Call) and isinstance(e.func, ast.Name) and \
+                e.func.id in _VIEWS and len(e.args) == 1 and not e.keywords:
+            e = e.args[0]
+        elif isinstance(e, ast.Call) and isinstance(e.func, ast.Attribute) \
+                and e.func.attr in ('keys', 'items', 'values', 'copy') and \
+                not e.args and not e.keywords:
+            e = e.func.value
+        elif isinstance(e, ast.Subscript) and isinstance(e.slice, ast.Slice) \
+                and e.slice.lower is None and e.slice.upper is None and \
+                e.slice.step is None:
+            e = e.value
+        else:
+            return e
+
+
+def _necessary_atoms(test, pol):
+    """[(atom, polarity)] that all hold when `test` evaluates to `pol`; a
+    disjunction that is true / a conjunction that is false stays one atom"""
+    if isinstance(test, ast.UnaryOp) and isinstance(test.op, ast.Not):
+        return _necessary_atoms(test.operand, not pol)
+    if isinstance(test, ast.BoolOp) and \
+            isinstance(test.op, ast.And if pol else ast.Or):
+        out = []
+        for v in test.values:
+            out += _necessary_atoms(v, pol)
+        return out
+    return [(test, pol)]
+
+
+def _mentions(e, root):
+    """the expression reads the container `root` itself (not one of its
+    entries `root[k]`, `root.get(k)`)"""
+    skip = set()
+    for x in ast.walk(e):
+        if isinstance(x, ast.Subscript) and not isinstance(
+                x.slice, ast.Slice) and unparse(x.value) == root:
+            skip.add(id(x.value))
+        if isinstance(x, ast.Call) and isinstance(x.func, ast.Attribute) and \
+                x.func.attr in ('get', 'pop', 'setdefault') and \
+                unparse(x.func.value) == root:
+            skip.add(id(x.func.value))
+    return any(isinstance(x, ast.Attribute) and unparse(x) == root and
+               id(x) not in skip for x in ast.walk(e))
+
+
+def _domain(g, e, node, root, within, depth=3):
+    """what a loop over `e` at cfg node `node` visits of the container `root`:
+    ('whole', conds)  every entry, provided the (atom, polarity) conds hold
+    ('empty', [])     nothing (an empty container)
+    ('part', why)     some entries only
+    ('unknown', why)  derived from the container in a way not known here
+    None              not the container"""
+    e = _strip_view(e)
+    if unparse(e) == root:
+        return ('whole', [])
+    if _empty_container(e) or (isinstance(e, ast.Constant) and
+                               e.value in (None, ())):
+        return ('empty', [])
+    if isinstance(e, ast.Subscript) and isinstance(e.slice, ast.Slice):
+        k = _domain(g, e.value, node, root, within, depth)
+        if k and k[0] == 'whole':
+            return ('part', 'the slice `%s`' % short(e, 50))
+        return k
+    if isinstance(e, ast.IfExp):
+        a = _domain(g, e.body, node, root, within, depth)
+        b = _domain(g, e.orelse, node, root, within, depth)
+        if a is None and b is None:
+            return None
+        for x, y, pol in ((a, b, True), (b, a, False)):
+            if x and y and x[0] == 'whole' and y[0] == 'empty':
+                return ('whole', x[1] + _necessary_atoms(e.test, pol))
+        if a and b and a[0] == b[0] == 'whole' and not a[1] and not b[1]:
+            return ('whole', [])
+        for x in (a, b):
+            if x and x[0] == 'part':
+                return x
+        return ('unknown', '`%s`' % short(e, 50))
+    if isinstance(e, ast.BoolOp) and isinstance(e.op, ast.Or):
+        ks = [_domain(g, v, node, root, within, depth) for v in e.values]
+        if ks[0] and ks[0][0] == 'whole' and all(
+                k and k[0] == 'empty' for k in ks[1:]):
+            return ks[0]            # `backlog or {}`
+        if any(ks):
+            return ('unknown', '`%s`' % short(e, 50))
+        return None
+    if isinstance(e, (ast.ListComp, ast.SetComp, ast.GeneratorExp)):
+        gen = e.generators[0]
+        k = _domain(g, gen.iter, node, root, within, depth)
+        if k is None or k[0] == 'empty':
+            return None
+        if len(e.generators) == 1 and not gen.ifs and \
+                unparse(e.elt) == unparse(gen.target):
+            return k
+        if k[0] == 'part':
+            return k
+        return ('unknown', 'the selection `%s`' % short(e, 50))
+    if isinstance(e, ast.Name):
+        if depth <= 0:
+            return None
+        rd = reaching_defs(g, e.id, node.id)
+        if not rd:
+            return None
+        ks = [(None if v is None else
+               _domain(g, v, dn, root, within, depth - 1), dn)
+              for dn, v in rd]
+        if all(k is None or k[0] == 'empty' for k, dn in ks):
+            return None
+        for k, dn in ks:
+            if k is not None and k[0] in ('part', 'unknown'):
+                return k
+        if any(k is None for k, dn in ks):
+            return ('unknown', '`%s` (bound in several ways)' % e.id)
+        wholes = [(k, dn) for k, dn in ks if k[0] == 'whole']
+        if len(ks) == 1:
+            return wholes[0][0]
+        if len(wholes) == len(ks):
+            if any(k[1] for k, dn in wholes):
+                return ('unknown', '`%s` (bound in several ways)' % e.id)
+            return ('whole', [])
+        if len(wholes) != 1:
+            return ('unknown', '`%s` (bound in several ways)' % e.id)
+        # `x = []` .. `if C: x = <backlog>`: the backlog is visited only when
+        # the binding to it was executed
+        k, dn = wholes[0]
+        return ('whole', k[1] + [(g.nodes[t].ast, lab == 'T') for t, lab in
+                                 guards(g, dn.id, within=within)])
+    if _mentions(e, root):
+        return ('unknown', '`%s`' % short(e, 50))
+    return None
+
+
+def _backlog_insertions(prog, sb, root):
+    """[(f, g, cfg node)] statements of the scheduler classes that put tasks
+    into the backlog: `root[k] = v`, `root[k] += v`, root[k].append(..),
+    root.setdefault(k, ..) / root.update(..)"""
+    out = []
+    for k in [sb] + list(prog.subclasses(sb, strict=True)):
+        for f in k.methods.values():
+            if root.split('.')[-1] not in unparse(f.node):
+                continue
+            g = cfg_of(f)
+            smap = I.stmt_node_map(g)
+            al = I.Aliases(prog, None, {f.name: f}, root)
+            for n in walk(f.node):
+                hit = False
+                if isinstance(n, (ast.Assign, ast.AugAssign)):
+                    tg = n.targets if isinstance(n, ast.Assign) else [n.target]
+                    for t in tg:
+                        if isinstance(t, ast.Subscript) and \
+                                al.is_rooted_expr(f.name, t.value) and \
+                                not _empty_container(n.value):
+                            hit = True
+                elif isinstance(n, ast.Call) and \
+                        isinstance(n.func, ast.Attribute):
+                    v = n.func.value
+                    if n.func.attr in ('setdefault', 'update') and \
+                            unparse(v) == root:
+                        hit = True
+                    elif n.func.attr in ('append', 'extend', 'insert') and \
+                            not isinstance(v, ast.Name) and \
+                            unparse(v) != root and al.is_rooted_expr(f.name, v):
+                        hit = True
+                    elif n.func.attr in ('append', 'extend', 'insert') and \
+                            isinstance(v, ast.Name) and \
+                            v.id in al.rooted[f.name]:
+                        hit = True
+                if hit and id(n) in smap and (f, g, smap[id(n)]) not in out:
+                    out.append((f, g, smap[id(n)]))
+    return out
+
+
+def _changes_attr(prog, sb, attr):
+    """the attribute (a container) is changed after it was set up: an entry
+    stored / deleted, a mutating call, a re-binding to something non-empty"""
+    for k in prog.mro(sb) + list(prog.subclasses(sb, strict=True)):
+        for f in k.methods.values():
+            for n in walk(f.node):
+                if isinstance(n, (ast.Assign, ast.AugAssign)):
+                    tg = n.targets if isinstance(n, ast.Assign) else [n.target]
+                    for t in tg:
+                        if isinstance(t, ast.Subscript) and \
+                                unparse(t.value) == attr:
+                            return True
+                        if unparse(t) == attr and (
+                                isinstance(n, ast.AugAssign) or
+                                f.name not in ('__init__', 'initialize')
+                                and not _empty_container(n.value) and
+                                not isinstance(n.value, ast.Constant)):
+                            return True
+                elif isinstance(n, ast.Delete):
+                    if any(isinstance(t, ast.Subscript) and
+                           unparse(t.value) == attr for t in n.targets):
+                        return True
+                elif isinstance(n, ast.Call) and \
+                        isinstance(n.func, ast.Attribute) and \
+                        unparse(n.func.value) == attr and n.func.attr in (
+                            'append', 'extend', 'insert', 'pop', 'remove',
+                            'clear', 'update', 'setdefault', 'add', 'discard',
+                            'popitem', 'put'):
+                    return True
+    return False
+
+
+def r08_16(prog, rep, rid='R08.16'):
+    rep.rule(rid, 'the cancel handler of the scheduler searches every queue '
+             'of the raptor backlog for the named tasks on every path: a '
+             'condition under which (part of) the backlog is not searched is '
+             'one under which nothing is ever put into the backlog',
+             minimum=1)
+    sb = prog.cls(*SBASE)
+    f = prog.find_method(sb, 'control_cb')
+    rep.saw(f)
+    g, brs = cmd_branches(prog, f, 'cancel_tasks')
+    if not brs:
+        raise AnalysisError('UNRECOGNISED-IDIOM %s: no cancel_tasks branch'
+                            % f.where)
+    region = brs[0][1]
+    smap = I.stmt_node_map(g)
+    av = arg_var(f)
+    root = _BACKLOG
+    al = I.Aliases(prog, None, {f.name: f}, root)
+    sites = []          # (cfg node, iterable ast, domain)
+    for H in g.nodes:
+        if H.kind != 'for' or H.id not in region:
+            continue
+        k = _domain(g, H.ast.iter, H, root, region)
+        if k is None or k[0] == 'empty':
+            continue
+        serves = False
+        for x in walk(H.ast, nested=True):
+            if isinstance(x, ast.Delete):
+                serves = True
+            elif isinstance(x, ast.Call) and \
+                    isinstance(x.func, ast.Attribute) and \
+                    x.func.attr in _SERVE:
+                serves = True
+            elif isinstance(x, (ast.Assign, ast.AugAssign)) and any(
+                    isinstance(t, ast.Subscript) and
+                    al.is_rooted_expr(f.name, t.value) for t in (
+                        x.targets if isinstance(x, ast.Assign)
+                        else [x.target])):
+                serves = True
+        if serves:
+            sites.append((H, H.ast.iter, k))
+    for n in walk(f.node):
+        if isinstance(n, (ast.ListComp, ast.SetComp, ast.DictComp,
+                          ast.GeneratorExp)) and id(n) in smap and \
+                smap[id(n)].id in region and smap[id(n)].kind != 'for':
+            k = _domain(g, n.generators[0].iter, smap[id(n)], root, region)
+            if k is not None and k[0] != 'empty' and \
+                    len(n.generators) > 1:
+                sites.append((smap[id(n)], n.generators[0].iter, k))
+    if not sites:
+        raise AnalysisError('UNRECOGNISED-IDIOM %s: no loop over the queues '
+                            'of the raptor backlog %s in the cancel_tasks '
+                            'branch' % (f.where, root))
+    ins = None
+    hist = ('two raptor masters, master.1 has registered its queue, master.2 '
+            'not yet; task.r1 (raptor_id master.2) is held back in the '
+            'backlog; cancel request [task.r1]: the backlog is not searched, '
+            'task.r1 stays in it, is relayed to master.2 once that registers '
+            'and is executed - it never ends as CANCELED')
+    for H, it, k in sites:
+        where = 'the search of the raptor backlog (`%s` at line %d)' % (
+            short(it, 40), getattr(it, 'lineno', 0))
+        if k[0] == 'unknown':
+            raise AnalysisError('UNRECOGNISED-IDIOM %s: the queues of the '
+                                'raptor backlog that are searched are given '
+                                'by %s' % (f.where, k[1]))
+        if k[0] == 'part':
+            rep.bad(rid, f, 'backlog-search:domain', '%s: %s visits only %s, '
+                    'not every queue of %s: a named task held back in one of '
+                    'the other queues is not taken out, is relayed to its '
+                    'raptor master later and never ends as CANCELED' % (
+                        f.qual, where, k[1], root), f.loc(it), history=hist)
+            continue
+        conds = list(k[1]) + [(g.nodes[t].ast, lab == 'T')
+                              for t, lab in guards(g, H.id, within=region)]
+        seen, bad = set(), False
+        for atom, pol in conds:
+            key = (unparse(atom), pol)
+            if key in seen:
+                continue
+            seen.add(key)
+            reads = reads_through_defs(g, atom, H) - _BUILTINS
+            selfs = {r for r in reads if r.startswith('self.')}
+            inner, p2 = strip_truth(atom)
+            p2 = p2 == pol
+            if isinstance(inner, ast.Call) and isinstance(
+                    inner.func, ast.Name) and inner.func.id == 'len' and \
+                    len(inner.args) == 1:
+                inner = inner.args[0]
+            plain = isinstance(inner, (ast.Name, ast.Attribute))
+            cond = '`%s` is %s' % (short(atom, 50), 'true' if pol else 'false')
+            if selfs <= {root} and (selfs or (av and av in reads)):
+                # the emptiness of the backlog / of the request itself
+                if not plain:
+                    raise AnalysisError(
+                        'UNRECOGNISED-IDIOM %s: %s is made only when %s'
+                        % (f.where, where, cond))
+                if p2:
+                    continue     # nothing held back / nothing named
+                bad = True
+                rep.bad(rid, f, 'backlog-search:%s' % unparse(atom),
+                        '%s: %s is made only when %s, i.e. when there is '
+                        'nothing to find: whenever tasks are held back / '
+                        'named the search is skipped and the named tasks '
+                        'stay in the backlog' % (f.qual, where, cond),
+                        f.loc(atom), history=hist)
+                continue
+            others = sorted(selfs - {root})
+            if not others:
+                raise AnalysisError(
+                    'UNRECOGNISED-IDIOM %s: %s is made only when %s'
+                    % (f.where, where, cond))
+            if not all(_changes_attr(prog, sb, x) for x in others):
+                raise AnalysisError(
+                    'UNRECOGNISED-IDIOM %s: %s is made only when %s, which '
+                    'is fixed when the component is set up'
+                    % (f.where, where, cond))
+            # a fast path: it is justified only if no task is put into the
+            # backlog while the condition does not hold
+            if ins is None:
+                ins = _backlog_insertions(prog, sb, root)
+                if not ins:
+                    raise AnalysisError(
+                        'UNRECOGNISED-IDIOM %s: nothing is ever put into %s'
+                        % (sb.name, root))
+            text = unparse(atom)
+            free = []
+            for fi, gi, ni in ins:
+                same = [(a, p) for a, p in guard_atoms_of(gi, ni)
+                        if unparse(a) == text]
+                if same and all(p == pol for a, p in same):
+                    continue
+                if not same:
+                    for a, p in guard_atoms_of(gi, ni):
+                        ra = {r for r in reads_through_defs(gi, a, ni)
+                              if r in others}
+                        member = isinstance(a, ast.Compare) and \
+                            len(a.ops) == 1 and isinstance(
+                                a.ops[0], (ast.In, ast.NotIn))
+                        if ra and not member:
+                            raise AnalysisError(
+                                'UNRECOGNISED-IDIOM %s: %s is made only when '
+                                '%s; %s puts tasks into the backlog under '
+                                '`%s`, which is not compared here' % (
+                                    f.where, where, cond, fi.qual,
+                                    short(a, 40)))
+                free.append((fi, ni))
+            if not free:
+                raise AnalysisError(
+                    'UNRECOGNISED-IDIOM %s: %s is made only when %s; whether '
+                    'the backlog is empty whenever that does not hold is '
+                    'not decided' % (f.where, where, cond))
+            bad = True
+            fi, ni = free[0]
+            rep.bad(rid, f, 'backlog-search:%s' % text,
+                    '%s: %s is made only when %s, but %s puts tasks into %s '
+                    '(line %s) without that condition: tasks are held back '
+                    'while it does not hold (a task for a raptor master that '
+                    'has not registered yet, while another master has), the '
+                    'cancel request does not look at them, they stay in the '
+                    'backlog, are relayed to their master later and never '
+                    'end as CANCELED' % (
+                        f.qual, where, cond, fi.qual, root,
+                        getattr(ni.ast, 'lineno', '?')),
+                    f.loc(atom), history=hist)
+        if not bad:
+            rep.ok(rid, f, '%s visits every queue of %s whenever tasks may '
+                   'be held back' % (where, root), f.loc(it))
+
+
+def guard_atoms_of(g, node):
+    return [(g.nodes[t].ast, lab == 'T') for t, lab in guards(g, node.id)]
+
+
+# ------------------------------------------------------------------------------
 # R08.5b  lazy iteration over a container that the loop body changes
 #
 _LAZY_CALLS = ('filter', 'map', 'enumerate', 'zip', 'iter',
@@ -2736,6 +3194,7 @@ def run(prog, rep, tier):
     rep.attempt(r08_12, prog, rep)
     rep.attempt(r08_13, prog, rep)
     rep.attempt(r08_14, prog, rep)
+    rep.attempt(r08_16, prog, rep)
     # "it ends as CANCELED": on the client the notification CANCELED makes the
     # Task object final only if the replay applies the notified state itself
     from .c05 import r05_13
